@@ -365,13 +365,13 @@ Fixpoint copy_tree (fuel : nat) (x : id) (par : option id) : M id :=
   | O => raise ExFuel
   | S f =>
       n <- getn x ;;
-      ids <- mmap (fun c => nc <- getn c ;; copy_tree f c (parent nc)) (children n) ;;
+      ids <- mmap (fun c => copy_tree f c None) (children n) ;;      (* child.copy_tree_structure(): no parent recorded (round 3 repair) *)
       new_loop par ids (rdf n) (wform n) (meas n)
   end.
 Inductive newpar := NPFalse | NPNone | NPNode (p : id).
 Definition copy_tree_structure (x : id) (np : newpar) : M id :=
   n <- getn x ;;
-  fueled (fun fuel => copy_tree fuel x (match np with NPFalse => parent n | NPNone => None | NPNode p => Some p end)).
+  fueled (fun fuel => copy_tree fuel x (match np with NPFalse => None | NPNone => None | NPNode p => Some p end)).
 
 (* ---- editing operations of Loop ------------------------------------------------------------------------------------ *)
 Definition last_child (n : node) : option id := nth_error (children n) (pred (length (children n))).
@@ -492,6 +492,8 @@ Definition merge_single_child (vctr : Z) (x : id) : M unit :=
                | RVol k1 _ m1, RVol k2 _ m2 => RVol (k1 * m1 * (k2 * m2)) vctr 1
                end in
       loop_setitem_slice x None None None (children nc) ;;;
+      (* round 3 repair: child[:] = () - the merged child no longer lists the moved children and drops its cached duration *)
+      loop_setitem_slice c None None None [] ;;;
       modn x (fun n => set_meas ms (set_rdf r (set_wform (wform nc) n))) ;;;
       invalidate_all x
       end
@@ -750,11 +752,91 @@ Fixpoint nodes (fuel : nat) (h : heap) (x : id) : list id :=
   end.
 Definition in_tree (h : heap) (r y : id) : bool := existsb (Nat.eqb y) (nodes (S (S (length h))) h r).
 
+(* ---- round 3: further public editing operations ------------------------------------------------------------------------ *)
+(* Loop.add_measurements: windows are offset by the current body duration (reads body_duration: memoises) *)
+Definition add_measurements (x : id) (ms : list mw) : M unit :=
+  d <- fueled (fun fuel => body_duration fuel x) ;;
+  let ms' := if Qeq_bool d 0 then ms else map (fun m : mw => let '(nm, b, l) := m in (nm, Qred (b + d), l)) ms in
+  modn x (fun n => set_meas (Some (match meas n with Some l => l ++ ms' | None => ms' end)) n).
+
+(* Node.depth / Node.is_balanced *)
+Fixpoint ndepth (fuel : nat) (h : heap) (x : id) : Z :=
+  match fuel with
+  | O => 0
+  | S f => match get h x with
+           | None => 0
+           | Some n => match children n with
+                       | [] => 0
+                       | cs => 1 + fold_left Z.max (map (ndepth f h) cs) 0
+                       end
+           end
+  end.
+Fixpoint balanced (fuel : nat) (h : heap) (x : id) : bool :=
+  match fuel with
+  | O => true
+  | S f => match get h x with
+           | None => true
+           | Some n => match children n with
+                       | [] => true
+                       | c0 :: _ => forallb (fun e => (ndepth fuel h e =? ndepth fuel h c0) && balanced f h e) (children n)
+                       end
+           end
+  end.
+(* Loop.flatten_and_balance(depth): the while loop over the children of x (position i), one branch per iteration *)
+Fixpoint flatten (fuel : nat) (vctr : Z) (depth : Z) (x : id) (i : nat) : M unit :=
+  match fuel with
+  | O => raise ExFuel
+  | S f =>
+      n <- getn x ;;
+      match nth_error (children n) i with
+      | None => ret tt
+      | Some sub =>
+          fun h =>
+          let big := S (S (length h)) in
+          let d := ndepth big h sub in
+          (if d <? depth - 1 then encapsulate sub ;;; flatten f vctr depth x i
+           else if negb (balanced big h sub) then flatten f vctr (depth - 1) sub O ;;; flatten f vctr depth x i
+           else if d =? depth - 1 then flatten f vctr depth x (S i)
+           else b <- has_single_mergeable sub ;;
+                if b then merge_single_child (vctr + Z.of_nat fuel) sub ;;; flatten f vctr depth x i
+                else ns <- getn sub ;;
+                     if negb (is_leaf ns) then unroll sub ;;; flatten f vctr depth x i
+                     else flatten f vctr depth x (S i)) h
+      end
+  end.
+Definition flatten_and_balance (vctr : Z) (depth : Z) (x : id) : M unit := flatten 1500 vctr depth x O.
+
+(* ---- round 2/3: references the user holds; editing nodes that dropped out of the program; inserting held nodes THEMSELVES ---- *)
+Inductive ins := IAppend | IInt (i : Z) | ISlice (a b st : option Z).
+
 Record fstate := mkF { f_main : state; f_held : list id }.
 Inductive fop :=
 | FMain (o : op)                 (* an operation on the program, addressed by path from its root *)
 | FHold (p : path)               (* ref = the node at path p (the user keeps the reference) *)
-| FAt (k : nat) (o : op).        (* an operation addressed by path from the k-th held node, when that node is no longer in the program *)
+| FAt (k : nat) (o : op)         (* an operation addressed by path from the k-th held node, when that node is no longer in the program *)
+(* round 3.  base b: None = the program root, Some j = the j-th held node (wherever it is) *)
+| FHoldCopy (b : option nat) (p : path) (np : nat) (q : path)
+    (* ref = node(b,p).copy_tree_structure(new_parent); np: 0 default, 1 None, 2 the program node at path q *)
+| FInsert (ks : list nat) (b : option nat) (dst : path) (how : ins)
+    (* the held nodes ks THEMSELVES (no copies) are given to node(b,dst): append_child(loop=) / [i] = / [a:b:st] = [...] *)
+| FAddMeas (b : option nat) (p : path) (ms : list mw)
+| FFlatten (b : option nat) (p : path) (depth : Z).
+
+Definition base_of (fs : fstate) (b : option nat) : option id :=
+  match b with None => Some (st_root (f_main fs)) | Some j => nth_error (f_held fs) j end.
+Fixpoint held_ids (held : list id) (ks : list nat) : option (list id) :=
+  match ks with
+  | [] => Some []
+  | k :: r => match nth_error held k, held_ids held r with Some x, Some xs => Some (x :: xs) | _, _ => None end
+  end.
+Definition frun_at (fs : fstate) (b : option nat) (p : path) (k : id -> M unit) : fstate * outcome :=
+  let s := f_main fs in
+  match base_of fs b with
+  | None => (fs, BadPath)
+  | Some m => let '(s', out) := run_at (mkState (st_heap s) m (st_vctr s)) p k in
+              (mkF (mkState (st_heap s') (st_root s) (st_vctr s')) (f_held fs), out)
+  end.
+
 Definition fstep (fs : fstate) (o : fop) : fstate * outcome :=
   match o with
   | FMain o' => let '(s', out) := step (f_main fs) o' in (mkF s' (f_held fs), out)
@@ -770,5 +852,33 @@ Definition fstep (fs : fstate) (o : fop) : fstate * outcome :=
                   else let '(s', out) := step (mkState (st_heap s) m (st_vctr s)) o' in
                        (mkF (mkState (st_heap s') (st_root s) (st_vctr s')) (f_held fs), out)
       end
+  | FHoldCopy b p np q =>
+      let s := f_main fs in
+      match base_of fs b, resolve (st_heap s) (st_root s) q with
+      | Some m, Some d =>
+          match resolve (st_heap s) m p with
+          | None => (fs, BadPath)
+          | Some x =>
+              match copy_tree_structure x (match np with O => NPFalse | S O => NPNone | _ => NPNode d end) (st_heap s) with
+              | (h', R c) => (mkF (mkState h' (st_root s) (st_vctr s)) (f_held fs ++ [c]), Done)
+              | (h', E e) => (mkF (mkState h' (st_root s) (st_vctr s)) (f_held fs), Raised e)
+              end
+          end
+      | _, _ => (fs, BadPath)
+      end
+  | FInsert ks b dst how =>
+      match held_ids (f_held fs) ks with
+      | None => (fs, BadPath)
+      | Some vals =>
+          frun_at fs b dst (fun x =>
+            match how, vals with
+            | IAppend, v :: _ => append_child x v
+            | IInt i, v :: _ => loop_setitem_int x i v
+            | ISlice a b' st, _ => loop_setitem_slice x a b' st vals
+            | _, [] => ret tt
+            end)
+      end
+  | FAddMeas b p ms => frun_at fs b p (fun x => add_measurements x ms)
+  | FFlatten b p depth => frun_at fs b p (fun x => flatten_and_balance (st_vctr (f_main fs)) depth x)
   end.
 Definition frun (fs : fstate) (ops : list fop) : fstate := fold_left (fun s o => fst (fstep s o)) ops fs.
